@@ -146,8 +146,8 @@ pub fn check_run(prop: &str, root: &Root, depth: u8, k: Option<u64>, r: &SearchR
         if r.table_after != root.table_entries {
             acc.violation(
                 format!("C07|table|{}", tag),
-                format!("repetition record changed by the search on {} (expiry {:?}, depth limit {}): {} entries before, {} after; first difference {:?}", root.hist.end.to_fen(), k, depth, root.table_entries.len(), r.table_after.len(),
-                    r.table_after.iter().zip(root.table_entries.iter()).find(|(a, b)| a != b)),
+                format!("repetition record changed by the search on {} (expiry {:?}, depth limit {}): {} entries before, {} after ({} of them with a zero count); first difference {:?}", root.hist.end.to_fen(), k, depth, root.table_entries.len(), r.table_after.len(),
+                    r.table_after.iter().filter(|e| e.1 == 0).count(), r.table_after.iter().zip(root.table_entries.iter()).find(|(a, b)| a != b)),
                 case.clone(),
             );
         }
@@ -313,7 +313,7 @@ pub fn run_c07(tier: Tier, seed: u64) -> i32 {
     run.rule = "fault = the index k of the clock query at which the allowance expires (thread-local virtual clock substituted in utils::out_of_time; monotone like the real clock). For each root (position + history loaded through the real position handler) and iteration limit D the unaborted run R_inf is recorded (Q clock queries, event list of sends and info lines), then R_k is run for every k in [0,Q] when Q is small, otherwise for k in [0,150], the last 80, every k within 3 of an accepted improvement / info line / iteration start, k at and after the entry of (a sample of) null-move children, and seeded random k. evaluation = one run R_k (or one handed-back board). Non-trivial = 0 < k < Q (expiry strictly inside the search); distinct by (root, D, k)".into();
     run.assumptions = vec![
         "the virtual clock can expire between any two consecutive queries and never un-expires, exactly like the monotonic Instant it replaces; it cannot create an execution the real clock could not".into(),
-        "repetition record equality ignores zero-count entries (all readers use unwrap_or(&0))".into(),
+        "repetition record equality is exact: an entry left behind with a zero count is a difference".into(),
         "S_k is compared with S_inf after removing each line's time field".into(),
         "the two-thread schedule clause (send after the receiver is gone) is observed on the hooked binary under failpoints in the same check (section 'schedules' of the evidence)".into(),
     ];
